@@ -18,6 +18,7 @@ import (
 	"strconv"
 	"strings"
 	"sync"
+	"syscall"
 	"time"
 )
 
@@ -322,10 +323,31 @@ func parent(id, tier string) int {
 			tail := &tailBuf{max: 16 << 10}
 			cmd.Stderr = io.MultiWriter(os.Stderr, tail)
 			cmd.Stdout = cmd.Stderr
-			err := cmd.Run()
+			// hard stop: a worker checks its deadline between work units; a unit that never returns (a thread blocked in
+			// something the harness does not control) would otherwise keep the check running for ever
+			cmd.SysProcAttr = &syscall.SysProcAttr{Setpgid: true}
+			stuck := false
+			err := cmd.Start()
+			if err == nil {
+				done := make(chan struct{})
+				go func() {
+					select {
+					case <-done:
+					case <-time.After(time.Duration(deadlineS+envInt("VERIF_GRACE_S", 180)) * time.Second):
+						stuck = true
+						syscall.Kill(-cmd.Process.Pid, syscall.SIGKILL)
+					}
+				}()
+				err = cmd.Wait()
+				close(done)
+			}
 			b, rerr := os.ReadFile(out)
 			mu.Lock()
 			defer mu.Unlock()
+			if stuck {
+				died = append(died, fmt.Sprintf("worker %d was stopped %d s after its deadline: a work unit never returned (blocked outside the harness's control); what the other workers found is kept", w, envInt("VERIF_GRACE_S", 180)))
+				return
+			}
 			if rerr != nil {
 				// a worker that died of a Go fatal error (out of memory, stack overflow, concurrent map access) raised
 				// INSIDE the code under test did not fail for infrastructure reasons: that is a finding
